@@ -944,6 +944,7 @@ impl Future for ReadFut<'_> {
             pipe.total_read += n;
             pipe.last_read_byte = this.buf[n - 1];
             pipe.data_reads += 1;
+            crate::alloc_watch::note_data_read();
             if n == window {
                 pipe.realloc_gen += 1;
                 pipe.maybe_grown = true;
